@@ -25,6 +25,8 @@ def run(ctx):
     ctx.run("C06.CACHE-FORWARD", "R-FLOW", mem.cache_forward)
     ctx.run("C12.CHECK-DOMINATES", "R-ORDER", mem.check_dominates)
     ctx.run("C12.FRESH-SOURCE", "R-WHO", mem.fresh_source)
+    ctx.run("C12.DIFF-WIPES", "R-ORDER", mem.diff_wipes)
+    ctx.run("C12.FASTPATH-COHERENT", "R-WHO", mem.fastpath_coherent)
     ctx.run("C12.CODE-HASH", "R-FLOW", mem.code_hash)
     ctx.run("C12.GETSTATE", "R-WHO", mem.getstate_pure)
     ctx.run("C07.SIGNATURE", "R-WHO", c07.signature_fresh)
